@@ -286,9 +286,30 @@ func (s Slicer) contents(obj ssa.Value, walk func(ssa.Value), add func(Origin)) 
 				}
 			}
 		case ssa.CallInstruction:
-			// the address escapes into a call which may write through it
+			// the address escapes into a call which may write through it: what is
+			// written may derive from the call's other arguments
 			stored = true
 			add(Origin{Kind: "escaped", V: obj, Name: Callee(r)})
+			for _, a := range r.Common().Args {
+				if a != obj {
+					walk(a)
+				}
+			}
+		case *ssa.MakeInterface:
+			// &x passed as interface{} (json.Unmarshal(data, &x))
+			if r.Referrers() != nil {
+				for _, rr := range *r.Referrers() {
+					if call, ok := rr.(ssa.CallInstruction); ok {
+						stored = true
+						add(Origin{Kind: "escaped", V: obj, Name: Callee(call)})
+						for _, a := range call.Common().Args {
+							if a != ssa.Value(r) {
+								walk(a)
+							}
+						}
+					}
+				}
+			}
 		}
 	}
 	if !stored {
